@@ -112,7 +112,9 @@ def run(ctx: Ctx):
                               P_HOOKS, sample={"site": show(o.site.ty), "alt": show(o.alt), "leaf": o.leaf})
             else:
                 if o.alt == ("enum", en):
-                    ok = o.leaf_kind == "structure" and o.leaf_ty == ("enum", en)
+                    lenient = [m for c_, m in o.issues if c_ == "nonstrict-lookup"]
+                    ok = (o.leaf_kind == "structure" and o.leaf_ty == ("enum", en)) or \
+                        (o.leaf_kind == "lookup" and not lenient)
                     ctx.check(ok, "closed-enum-in-union-structured", f"{o.handler} alt={show(o.alt)} site={show(o.site.ty)}",
                               f"closed enumeration {en} inside {show(o.site.ty)} reaches leaf {o.leaf}: values outside "
                               "the enumeration are accepted unchanged", P_HOOKS,
